@@ -494,7 +494,10 @@ func (e *Exec) valuesEqual(a, b Value) *Term {
 		y := b.(StringV)
 		return And(Eq(x.ID, y.ID), Eq(x.Len, y.Len))
 	case StructV:
-		y := b.(StructV)
+		y, ok := b.(StructV)
+		if !ok {
+			e.errorf("comparison of a struct with %T %v (struct has %d fields)", b, b, len(x.Fields))
+		}
 		r := True
 		for i := range x.Fields {
 			r = And(r, e.valuesEqual(x.Fields[i], y.Fields[i]))
